@@ -72,6 +72,8 @@ HARNESSES = {
     'std_prims': dict(src='harness/std_prims.cpp', kind='mc'),
     'coro_await': dict(src='harness/coro_await.cpp', kind='mc'),
     'coro_mutex': dict(src='harness/coro_mutex.cpp', kind='mc'),
+    'coro_shared_mutex': dict(src='harness/coro_shared_mutex.cpp', kind='mc'),
+    'wait_group': dict(src='harness/wait_group.cpp', kind='mc'),
     'pool': dict(src='harness/pool.cpp', kind='mc'),
 }
 
@@ -428,6 +430,22 @@ CHECKS = {
                      'FIFO is checked on the chain cell where arrival order is fixed by construction (spawn edges), not by timestamps'],
         technique='stateless model checking: exhaustive preemption-bounded schedule enumeration of the implementation',
     ),
+    'C16': dict(
+        title='WaitGroup/OneShotEvent release every waiter exactly when the count hits zero',
+        level_text='every schedule within the preemption bound (<= 2 fibers: P<=3 quick / all interleavings thorough; 3 fibers P<=2 / P<=3; '
+                   'more P<=2), one spurious weak-CAS failure and one timer firing per timed wait, of actor sets {Done, Done+Done, attached '
+                   'future, consumed future, Done+attached, Done+consumed, attached+consumed, Add-while-non-zero + Done} each on its own '
+                   'fiber against 1-2 waiters from {Wait, WaitFor, WaitUntil, co_await inline, AwaitSticky, AwaitOn(e)} registering at any '
+                   'moment, plus a waiter arriving after zero; and the bare OneShotEvent (TryAdd / Wait vs Set, Ready, Reset); ASan variant '
+                   '(the two-owner TimedWaiter is freed exactly once on every schedule) and HB monitor',
+        budget=dict(quick=300, thorough=2400),
+        runs=[mc('wait_group', 'mc-asan', quick=dict(P=3, S=1, T=1), thorough=dict(P=99, S=1, T=1)),
+              mc('wait_group', 'mc-hb', quick=dict(P=3, S=1, T=1), thorough=dict(P=99, S=1, T=1)),
+              mc('wait_group', 'mc-asan-nost', quick=dict(P=3, S=1, T=1, cells='w0=co|w1=co'), thorough=dict(P=99, S=1, T=1))],
+        assumptions=['FIBER instantiation with virtual time; sequentially consistent executions; preemption bounds as stated',
+                     'Add is only called while the count is non-zero (documented rule)'],
+        technique='stateless model checking: exhaustive preemption- and timer-bounded schedule enumeration of the implementation',
+    ),
     'C17': dict(
         title='Fiber fault-injection runs are reproducible from their seed',
         level_text='(a) rng-level exploration: only the random engine is hooked, the real injection counter, list-pick arithmetic, '
@@ -444,6 +462,22 @@ CHECKS = {
         assumptions=['"all seeds" is covered as all engine answer sequences up to the stated depth (exhaustive) plus a bounded seed range (exhaustive within the range)',
                      'the explorer\'s own prefix-replay divergence check over every execution of every other harness is further evidence (any divergence is a hard error there)'],
         technique='bounded exhaustive enumeration of random-engine answer sequences on the real scheduler, each replayed in-process and across processes',
+    ),
+    'C15': dict(
+        title='coroutine SharedMutex: writers exclude all, readers share, nobody is forgotten',
+        level_text='every schedule within the preemption bound (2 coroutines one round: P<=3 quick / all interleavings thorough; two '
+                   'rounds P<=3 / P<=4; 3 coroutines P<=2 / P<=3; 4 coroutines P<=2; FairThreadPool(1) P<=2 / P<=3 (3 coroutines: 1); '
+                   'FairThreadPool(2) P<=1) plus one spurious weak-CAS failure, of (1 writer,1 reader), (1,2), (2,1) (thorough also (2,2),(1,3)) '
+                   'coroutines started on their own fibers on SharedMutex<FIFO,ReadersFIFO> for the four option pairs, through Lock, '
+                   'LockShared, Guard, GuardShared, TryLock, TryLockShared, TryGuard, TryGuardShared, UnlockHere, UnlockHereShared and guard '
+                   'destruction, inline / instrumented inline executors / real pool; the internal spinlock is handled by spin detection '
+                   '(a fiber re-reading an unchanged value is descheduled until it changes); ASan variant and HB monitor',
+        budget=dict(quick=300, thorough=2700),
+        runs=[mc('coro_shared_mutex', 'mc-asan', quick=dict(P=3, S=1), thorough=dict(P=99, S=1)),
+              mc('coro_shared_mutex', 'mc-hb', quick=dict(P=3, S=1, cells='exe=(inline|pool1)'), thorough=dict(P=99, S=1)),
+              mc('coro_shared_mutex', 'mc-asan-nost', quick=dict(P=3, S=1, cells='exe=ex'), thorough=dict(P=99, S=1))],
+        assumptions=['FIBER instantiation, g++ 12 coroutine lowering; sequentially consistent executions; preemption bounds as stated'],
+        technique='stateless model checking: exhaustive preemption-bounded schedule enumeration of the implementation',
     ),
     'C18': dict(
         title='yaclib_std locks, condition variables and threads behave like std under fibers',
